@@ -4,7 +4,7 @@ from . import register
 from ..analysis import (backslice, classify_result, switch_on_result_of, variant_arms, dominated_region,
                         return_variants_from, slice_const_values, comparisons, branch_of, promoted_value)
 from ..callgraph import CallGraph, sink_kind, open_mode
-from ..facts import const_bool, op_const, place_fields
+from ..facts import const_bool, op_const, place_fields, op_local, rvalue_places
 
 DOC = {
     'explanation': 'Static conformance of the lock-then-act discipline: in the resolved MIR of FsCommand::execute every enum arm '
@@ -16,6 +16,7 @@ DOC = {
         'C20.R1': 'every arm of execute: maybe_lock(<path to be affected>, should_lock) dominates every mutating call and its result is propagated',
         'C20.R2': 'maybe_lock maps only ErrorKind::Unsupported to Ok(None); lock=false is the only other Ok(None)',
         'C20.R3': 'FileLock::new: write-open, then fcntl(F_SETLK, F_WRLCK) over the whole file (l_start = l_len = 0); every failure returns Err',
+        'C20.R9': 'the file that is written is the file that is locked: the lock step refuses symbolic links (opening one would lock its target), so no command that writes THROUGH the path is generated for a link - dedupe_script makes a RefLink command (which opens the destination path for writing and clones into it) only for a path that is not a symbolic link',
         'C20.R8': 'the lock is not lost half way: a traditional fcntl record lock is released when the process closes any descriptor of the file (fs::copy of a cross-device move, the backup clone of dedupe open the locked file again), so FileLock takes a lock owned by the open file description (F_OFD_SETLK; it conflicts with the record locks of other processes all the same) - or nothing under execute() opens files again',
         'C20.R7': 'the lock is held for the duration of the operation: in every arm of execute the Option<FileLock> returned by maybe_lock is dropped only after the last mutating call of the arm (a guard bound with `let _ =` is dropped immediately, which turns the lock into a probe)',
         'C20.R6': 'taking the lock needs no permission that the operation itself does not need (removing / replacing a name needs write access to the directory, not to the file): when the write-open is denied, FileLock::new falls back to a read-only open and a lock probe instead of failing - otherwise read-only duplicates are listed by --dry-run (and removed by its script) but skipped with an error by the real run',
@@ -60,11 +61,48 @@ def run(ctx):
         r1(ctx, lib, cg, ex)
         r7(ctx, lib, cg, ex)
         r8(ctx, lib, cg, ex)
+    r9(ctx, lib)
     r2(ctx, lib)
     r3(ctx, lib)
     r4(ctx, lib)
     r5(ctx, lib)
     r6(ctx, lib)
+
+
+def r9(ctx, lib):
+    rule = 'C20.R9'
+    b = ctx.need_body(rule, 'dedupe::PartitionedFileGroup::dedupe_script')
+    if b is None:
+        return
+    from .common import bypass_decisions
+    aggs = [(bi, st) for bi, blk in enumerate(b.blocks) if not blk['cleanup'] for st in blk['stmts']
+            if st['rv']['k'] == 'agg' and st['rv'].get('adt') == 'dedupe::FsCommand' and st['rv'].get('variant') == 'RefLink']
+    if not ctx.floor(rule, 'RefLink commands built in dedupe_script', len(aggs), 1, b.where()):
+        return
+    def reads_linkness(x):
+        return any('link_metadata' in place_fields(pl) for blk in x.blocks for st in blk['stmts'] for pl in rvalue_places(st['rv']))
+    for bi, st in aggs:
+        guarded = False
+        for d in b.dominators()[bi]:
+            t_ = b.blocks[d]['term']
+            if t_['k'] != 'switch' or not any(b.dominates(x, bi) for x in dict.fromkeys(t_['tgts'])):
+                continue
+            sl = backslice(b, [t_['op']])
+            if 'link_metadata' in sl.field_names():
+                guarded = True
+            for c in sl.calls:
+                # a closure (`is_link`) or a local function that looks at link_metadata
+                if c.f.get('self_closure') and lib.body(c.f['self_closure']) is not None and reads_linkness(lib.body(c.f['self_closure'])):
+                    guarded = True
+                l0 = op_local(c.args[0]) if c.args else None
+                cp = lib.closure_of_type(b.local_ty(l0)) if l0 is not None else None
+                if cp and reads_linkness(lib.body(cp)):
+                    guarded = True
+                if c.f.get('local') and lib.body(c.path) is not None and reads_linkness(lib.body(c.path)):
+                    guarded = True
+        ctx.check(guarded, rule, b.path + '|no-reflink-through-a-link', b.where(st['line']), 'a RefLink command is made only for a path that is not a symbolic link',
+                  'with a --symbolic-links report a dropped symbolic link L -> A becomes RefLink{retained, L}: maybe_lock skips the lock (FileLock refuses links), linux_reflink opens L for writing - '
+                  'that is A - and clones the retained file into it: a file that is locked by another process, and that need not be one of the reported files at all, is written to ("Processed 1 files")')
 
 
 def r8(ctx, lib, cg, ex):
